@@ -53,12 +53,42 @@ def pool(seed, tier):
                     bucket[j] = (d, c.label, m["src"], m["ds"], m["de"], m["cfg"])
         for label in sorted(picked):
             out.extend(picked[label])
+    out.extend(_multiline_docs(seed, tier))
     os.makedirs("/verif/.build", exist_ok=True)
     try:
         pickle.dump(out, open(cache + ".tmp", "wb"))
         os.replace(cache + ".tmp", cache)
     except Exception:
         pass
+    return out
+
+
+def _multiline_docs(seed, tier):
+    """documents whose tags span lines (a line break between attributes, in front of the end delimiter, inside the
+    closing tag): every line-based piece of the code - wrapper lines of unwrap-blocks, line numbers of list items,
+    whitespace tidying - sees tags that begin on one line and end on another"""
+    from . import gen
+    from .proto import DEFAULT_CFG
+    rng = random.Random(seed * 104729 + 17)
+    n = {"quick": 400, "thorough": 6000}[tier]
+    out = []
+    cfgs = [DEFAULT_CFG.to_json(), Cfg(targets=("a", "b")).to_json(), Cfg(now=0, targets=()).to_json()]
+    for i in range(n):
+        ds, de = gen.SAFE_DELIMS[i % len(gen.SAFE_DELIMS)] if i % 3 == 0 else ("<", ">")
+        if i % 5 == 4:
+            # delimiters that contain the line break themselves
+            ds, de = [("<", ">\n"), ("\n<", ">"), ("<!--\n", "\n-->"), ("<", "\n>")][(i // 5) % 4]
+        sp = gen.Spelling(ds, de, multiline=(i % 5 != 4 or i % 2 == 0))
+        if i % 2 == 0:
+            g = gen.DocGen(rng, depth=rng.choice([1, 2, 3]), p_unwrap=0.5, p_ready=0.7, p_skip=0.05, max_items=3,
+                           p_wrapper_tags=0.3 if i % 4 == 0 else 0.0, p_inline=0.2 if i % 8 == 0 else 0.0)
+            items = g.doc()
+            if rng.random() < 0.7:
+                items.insert(0, gen.Line("pre"))
+        else:
+            items = gen.g_ast(rng, depth=rng.choice([1, 2, 3]))
+        src = gen.render(items, sp, final_nl=rng.random() < 0.8)
+        out.append(("ML", "multiline-tags", src, ds, de, cfgs[i % len(cfgs)]))
     return out
 
 
